@@ -12,12 +12,12 @@
  * they are held at two gates by interposing libc calls they make: poll() (idle, top of the loop) and
  * open("<tid>.dat") (registered for a tid, about to write the head of their list).  Commands on stdin:
  *   M        read_record_mmap on the next REC_START / REC_END / LOST message (other messages are
- *            processed on the way)                             -> "M start|end|lost|none"
+ *            processed on the way)                             -> "M start|end|lost|exec|none"   (exec = TASK_START of a known tid)
  *   W <i>    let writer i run from its gate to its next gate    -> "W <i> poll|open"
  *   STOP     stop_all_writers()                                 -> "STOP"
  *   JOIN     open all gates for good, pthread_join the writers  -> "JOIN"
  *   FLUSH    flush_shmem_list(); record_remaining_buffer()      -> "FLUSH"
- *   SNAP     -> "SNAP shl=<ids> bwl=<ids> lost=<n> kicks=<n> w=<tid|->:<ids>;..."   ids = tid:idx,...
+ *   SNAP     -> "SNAP shl=<ids> bwl=<ids> lost=<n> kicks=<n> w=<tid|->:<ids>;..."   ids = sid.tid:idx,...
  *   QUIT
  * soak mode: RUN = the loop of do_main_loop/stop_tracing/finish_writers on the FIFO with free-running
  * writers; seeded random delays are injected at poll/open/munmap/pthread_mutex_lock.  -> "DONE lost=<n>"
@@ -234,7 +234,7 @@ static void id_of_mapping(void *addr, char *out, size_t sz)
 			unsigned long long sid;
 			unsigned tid, seq;
 			if (sscanf(p, "/uftrace-%16llx-%u-%u", &sid, &tid, &seq) == 3)
-				snprintf(out, sz, "%u:%u", tid, seq);
+				snprintf(out, sz, "%016llx.%u:%u", sid, tid, seq);
 		}
 		break;
 	}
@@ -265,7 +265,7 @@ static void snapshot(void)
 		unsigned long long sid;
 		unsigned tid, seq;
 		sscanf(sl->id, "/uftrace-%16llx-%u-%u", &sid, &tid, &seq);
-		printf("%s%u:%u", first ? "" : ",", tid, seq);
+		printf("%s%016llx.%u:%u", first ? "" : ",", sid, tid, seq);
 		first = 0;
 	}
 	real_mutex_lock(&write_list_lock);
@@ -305,6 +305,7 @@ static int one_message(const char *dir, int bufsize)
 {
 	struct uftrace_msg msg;
 	char payload[4096];
+	int known_task = 0;
 	int n = read(fifo_fd, &msg, sizeof(msg));
 	if (n <= 0)
 		return 0;
@@ -312,10 +313,20 @@ static int one_message(const char *dir, int bufsize)
 		pr_err_ns("c03_recorder: short message header\n");
 	if (msg.len && read_all(fifo_fd, payload, msg.len) < 0)
 		pr_err_ns("c03_recorder: short message\n");
+	if (msg.type == UFTRACE_MSG_TASK_START && msg.len == sizeof(struct uftrace_msg_task)) {
+		/* TASK_START of a tid the recorder already has in its list = the task exec'ed: one step of its own */
+		struct uftrace_msg_task *tm = (void *)payload;
+		struct tid_list *tl;
+		list_for_each_entry(tl, &tid_list_head, list)
+			if (tl->tid == tm->tid)
+				known_task = 1;
+	}
 	if (write(ipipe[1], &msg, sizeof(msg)) != sizeof(msg) ||
 	    (msg.len && write(ipipe[1], payload, msg.len) != (ssize_t)msg.len))
 		pr_err_ns("c03_recorder: internal pipe\n");
 	read_record_mmap(ipipe[0], dir, bufsize);
+	if (known_task)
+		return 1000;
 	return msg.type;
 }
 
@@ -366,6 +377,8 @@ int main(int argc, char **argv)
 					what = "end";
 				else if (ty == UFTRACE_MSG_LOST)
 					what = "lost";
+				else if (ty == 1000)
+					what = "exec";
 				else
 					continue;
 				break;
